@@ -67,6 +67,8 @@ def ops():
         'cols:one': lambda d: d[:, [d.channels[-1]]],
         'rows:slice': lambda d: d[1:-1:2] if d.shape[0] > 3 else None,
         'rows:mask': lambda d: d[np.arange(d.shape[0]) % 3 != 1] if d.shape[0] > 2 else None,
+        'rows:none': lambda d: d[np.zeros(d.shape[0], dtype=bool)] if d.shape[0] > 0 else None,      # everything gated out
+        'rows:one': lambda d: d[2:3] if d.shape[0] > 3 else None,
         'to_rfi': lambda d: FlowCal.transform.to_rfi(d),
         'to_mef': lambda d: FlowCal.transform.to_mef(d, chan(d, ['FL1', 'FL2']), sc[:len(chan(d, ['FL1', 'FL2']))], chan(d, ['FL1', 'FL2'])) if chan(d, ['FL1', 'FL2']) else None,
         'high_low': lambda d: FlowCal.gate.high_low(d),
